@@ -478,13 +478,40 @@ func bigEnv() map[string]any {
 
 func init() { generators["scaling"] = genScaling }
 
-// "deepexpr": one operator nested many levels deep - (((n op 1) op 1) ... op 1).  Evaluating it takes time proportional
+// "deepexpr": (also lookup chains, below) one operator nested many levels deep - (((n op 1) op 1) ... op 1).  Evaluating it takes time proportional
 // to its length, whatever the operator: each operand is evaluated once.
 func genDeepExpr(r *rand.Rand, i int) J {
 	ops := []string{"==", "!=", "<", ">", "<=", ">=", "and", "or", "contains"}
 	depths := []int{12, 30, 48}
-	if i >= len(ops)*len(depths)*2 {
-		return nil
+	if base := len(ops) * len(depths) * 2; i >= base {
+		// a chain of property and index lookups many links long, from an undefined name, nil, and every binding of the
+		// fuzzing environment (structs, typed maps, Drops, ordered maps ...): one lookup per link
+		if weirdBindingNames == nil {
+			for k := range weirdEnv() {
+				weirdBindingNames = append(weirdBindingNames, k)
+			}
+			sort.Strings(weirdBindingNames)
+		}
+		recvs := append([]string{"nosuch", "nil"}, weirdBindingNames...)
+		j := i - base
+		if j >= len(recvs)*2*3 {
+			return nil
+		}
+		recv, d, style := recvs[j%len(recvs)], []int{30, 48}[(j/len(recvs))%2], j/len(recvs)/2
+		links := []string{".p", "[0]", ".first", "['k']", ".X", ".size", ".Next", ".Self", "[n]"}
+		e := recv
+		for k := 0; k < d; k++ {
+			switch style {
+			case 0:
+				e += ".p"
+			case 1:
+				e += pick(r, links)
+			default:
+				e += pick(r, []string{".Next", ".Self", ".M", "[0]", ".k"})
+			}
+		}
+		src := "{{ " + e + " }}{% if " + e + " %}y{% endif %}"
+		return J{"kind": "render", "src": bs(src), "env": []any{}, "weird": true, "nospec": true, "tm": "TraceC01"}
 	}
 	op, d, form := ops[i%len(ops)], depths[(i/len(ops))%len(depths)], i/len(ops)/len(depths)
 	e := pick(r, []string{"n", "5", "'a'", "nil"})
